@@ -147,6 +147,50 @@ def mc_cov(merged, rule, extra=None):
     return cov
 
 
+def check_c03(tier, seed):
+    v = Verdict("C03", tier, seed)
+    st = new_stage()
+    merged = Merged()
+    lib = mkbuild("shipped").build(st)
+    m1 = run_dp(st, lib, ["h_dp.c"], "c03", tier, seed, merged, v)
+    m2 = run_mc(st, lib, "h_par.c", "c03p", tier, seed, merged, v, nshards=NCPU)
+    m3 = run_mc(st, lib, "h_sched.c", "c03s", tier, seed, merged, v, nshards=3)
+    closed = all(val == 0 for k, val in merged.notes.items() if k.startswith("kinds_cut_by_depth_cap"))
+    cov = mc_cov(merged,
+                 "(ii) closure of the Mantis schedule under {set_key(2 keys x rounds 5..8 x 2 modes), set_tweak(Z,F,R1,R2,NULL), swap_modes, invalid tweak sizes} and of the "
+                 "Mantis parallel object under {set_key, swap_modes} on each back end: every reachable state x every operation executed; oracle: schedule image == fresh "
+                 "set_key in the current mode + set_tweak(last), behaviour == specification in the current mode over a block family. "
+                 "(i) D(E(x)) = x and E(D(y)) = y over the BG/BYTE/PAIR/BIT families through the single-block functions of all six SKINNY variants and Mantis-5..8 "
+                 "(stored and per-call tweak), and through the parallel functions on every back end for block counts {1,P-1,P,P+1,2P+1} x 4 data families",
+                 {"builds": [lib.describe()], "closure_states": m3.states, "closure_transitions": m3.transitions,
+                  "roundtrip_evaluations_single_block": m1.evaluations, "roundtrip_evaluations_parallel": m2.evaluations,
+                  "evaluations": merged.evaluations + merged.transitions, "distinct_nontrivial": merged.distinct})
+    return v.finish("model_checking", cov, ["key/tweak values outside the alphabets are not covered"], exhaustive=closed)
+
+
+def check_c04(tier, seed):
+    v = Verdict("C04", tier, seed)
+    st = new_stage()
+    merged = Merged()
+    lib = mkbuild("shipped").build(st)
+    libw = mkbuild("w32").build(st)
+    mc = run_mc(st, lib, "h_sched.c", "c04", tier, seed, merged, v, nshards=7)
+    d1 = run_dp(st, lib, ["h_dp.c"], "c04", tier, seed, merged, v)
+    d2 = run_dp(st, libw, ["h_dp.c"], "c04", tier, seed, merged, v)
+    closed = all(val == 0 for k, val in merged.notes.items() if k.startswith("kinds_cut_by_depth_cap"))
+    cov = mc_cov(merged,
+                 "closure of the tweakable SKINNY-128 and SKINNY-64 schedules (directly and inside CTR objects of every back end) under {set_tweaked_key(2 keys x 2 sizes), "
+                 "set_tweak over TWEAKS(B) = Z,F,R1,R2, R1 at every length 1..B-1, NULL at lengths 1 and B (thorough: every byte value at every position), invalid sizes}; "
+                 "every reachable state x every alphabet element executed; oracle on every transition: defined schedule image == fresh set_tweaked_key + one set_tweak(last), "
+                 "round count as specified, encrypt/decrypt of a block family == specification cipher with TK1 = zero-padded last tweak and the tweak-domain constant",
+                 {"builds": [lib.describe(), libw.describe()], "oracle_block_evaluations": mc.evaluations,
+                  "fresh_schedule_family_evaluations": d1.evaluations + d2.evaluations,
+                  "fresh_schedule_rule": "BG/BYTE/PAIR/BIT families over tweak||key||block for the four tweakable variants x {encrypt, decrypt} x {set_tweak, fresh schedule} against the specification model, on the 64-bit and 32-bit word builds",
+                  "evaluations": merged.evaluations + merged.transitions, "distinct_nontrivial": merged.distinct})
+    return v.finish("model_checking", cov, ["reference ref/ref_skinny.c (tweak-domain constant cross-checked against the Arduino port by C19)",
+                                            "tweaks outside the alphabet are not covered"], exhaustive=closed)
+
+
 def check_c05(tier, seed):
     v = Verdict("C05", tier, seed)
     st = new_stage()
@@ -199,10 +243,29 @@ def check_c14(tier, seed):
     return v.finish("model_checking", cov, ["void functions on a null object are demanded only where documented"], exhaustive=closed)
 
 
+def check_c07(tier, seed):
+    v = Verdict("C07", tier, seed)
+    st = new_stage()
+    merged = Merged()
+    lib = mkbuild("shipped").build(st)
+    run_mc(st, lib, "h_par.c", "c07", tier, seed, merged, v, nshards=NCPU)
+    cov = {"evaluations": merged.evaluations, "distinct_nontrivial": merged.distinct,
+           "rule": "every block count 0..25 (3 x widest batch + 1) x {encrypt, decrypt} x data families with per-block distinct contents x "
+                   "{in-place, out-of-place} x key configurations (Skinny: 2 keys x 3 sizes; Mantis: rounds x modes, independent tweak per block) "
+                   "x every back end (pinned), compared with the single-block functions block by block; plus byte counts that are not whole blocks "
+                   "(must return 0, output untouched) and the advertised parallel_size; non-trivial = output differs from input",
+           "samples": merged.samples, "builds": [lib.describe()]}
+    return v.finish("exploration", cov,
+                    ["single-block functions are tied to the specification by C01/C02", "block counts above 3P+1 are not run (loop structure argument, DESIGN.md 4/C07)"])
+
+
 REGISTRY = {
     "C01": check_c01,
     "C02": check_c02,
+    "C03": check_c03,
+    "C04": check_c04,
     "C05": check_c05,
     "C06": check_c06,
+    "C07": check_c07,
     "C14": check_c14,
 }
